@@ -42,12 +42,12 @@ yt = math.sqrt(0.5) * g0 * 173.0 / 80.379
 cH = (3 * g0 ** 2 + g1 ** 2 + 4 * yt ** 2 + 8 * lHH) / 16 + lHS / 24
 cS = lHS / 6 + lSS / 4
 TN = 100.0
-BASE_PHASE1 = [0.0, 110.0]     # high-T phase (singlet direction)
-BASE_PHASE2 = [195.0, 0.0]     # low-T phase (Higgs direction)
+KAPPA, MCHI = 0.3, 100.0
 
 
-def baseV(v, x, T):
-    """xSM with Z2 symmetry, leading high-temperature expansion (v: Higgs, x: singlet)"""
+def baseV2(f, T):
+    """xSM with Z2 symmetry, leading high-temperature expansion (f[0]: Higgs, f[1]: singlet)"""
+    v, x = f
     muH = muHsq0 + cH * T ** 2
     muS = muSsq0 + cS * T ** 2
     return (0.5 * muH * v ** 2 + 0.25 * lHH * v ** 4 + 0.5 * muS * x ** 2
@@ -55,27 +55,44 @@ def baseV(v, x, T):
             - 107.75 * math.pi ** 2 / 90 * T ** 4)
 
 
+def baseV3(f, T):
+    """same plus a heavy third field that follows chi = KAPPA h^2/246: the phases stay
+    closed-form ((0,s,0) and (v,0,KAPPA v^2/246)), the free energies are those of baseV2,
+    but there is a third wall"""
+    return baseV2(f[:2], T) + 0.5 * MCHI ** 2 * (f[2] - KAPPA * f[0] ** 2 / 246.0) ** 2
+
+
+# name -> (potential, high-T phase guess, low-T phase guess, per-field FD scales)
+MODELS = {
+    "xsm2": (baseV2, [0.0, 110.0], [195.0, 0.0], [50.0, 30.0]),
+    "xsm3": (baseV3, [0.0, 110.0, 0.0], [195.0, 0.0, KAPPA * 195.0 ** 2 / 246.0],
+             [50.0, 30.0, 20.0]),
+}
+
+
 def to_new(basePoint, perm, sign, shift):
     return np.array([sign[j] * basePoint[perm[j]] + shift[j] for j in range(len(perm))])
 
 
-def make_model(perm, sign, shift):
+def make_model(name, perm, sign, shift):
     import WallGo
     from WallGo import EffectivePotential, Fields, GenericModel
+    V = MODELS[name][0]
     perm = tuple(perm)
+    n = len(perm)
     sg = np.asarray(sign, float)
     sh = np.asarray(shift, float)
 
     class Veff(EffectivePotential):
-        fieldCount = 2
+        fieldCount = n
         effectivePotentialError = 1e-15
 
         def evaluate(self, fields, temperature):
             fields = Fields(fields)
-            base = [None, None]
-            for j in range(2):
+            base = [None] * n
+            for j in range(n):
                 base[perm[j]] = sg[j] * (fields.getField(j) - sh[j])
-            return baseV(base[0], base[1], temperature)
+            return V(base, temperature)
 
     class Model(GenericModel):
         def __init__(self):
@@ -84,7 +101,7 @@ def make_model(perm, sign, shift):
 
         @property
         def fieldCount(self):
-            return 2
+            return n
 
         def getEffectivePotential(self):
             return self.veff
@@ -115,21 +132,27 @@ class MinimizeSpy:
         self.mod.minimize = self.orig
 
 
-def run_e2e(perm=(0, 1), sign=(1, 1), shift=(0.0, 0.0)):
+def run_e2e(name="xsm2", perm=None, sign=None, shift=None):
     """setupThermodynamicsHydrodynamics + equilibrium solveWall in relabelled coordinates"""
     import logging
     import WallGo
     from WallGo import Fields
     logging.disable(logging.CRITICAL)
+    _, ph1, ph2, scales = MODELS[name]
+    n = len(ph1)
+    perm = tuple(perm) if perm is not None else tuple(range(n))
+    sign = tuple(sign) if sign is not None else (1,) * n
+    shift = tuple(shift) if shift is not None else (0.0,) * n
     manager = WallGo.WallGoManager()
-    manager.registerModel(make_model(perm, sign, shift))
+    manager.registerModel(make_model(name, perm, sign, shift))
     phaseInfo = WallGo.PhaseInfo(
         temperature=TN,
-        phaseLocation1=Fields(to_new(BASE_PHASE1, perm, sign, shift)),
-        phaseLocation2=Fields(to_new(BASE_PHASE2, perm, sign, shift)))
+        phaseLocation1=Fields(to_new(ph1, perm, sign, shift)),
+        phaseLocation2=Fields(to_new(ph2, perm, sign, shift)))
     manager.setupThermodynamicsHydrodynamics(
-        phaseInfo, WallGo.VeffDerivativeSettings(temperatureVariationScale=1.0,
-                                                 fieldValueVariationScale=[50.0, 50.0]))
+        phaseInfo, WallGo.VeffDerivativeSettings(
+            temperatureVariationScale=1.0,
+            fieldValueVariationScale=[scales[perm[j]] for j in range(n)]))
     settings = WallGo.WallSolverSettings(bIncludeOffEquilibrium=False, meanFreePathScale=50.0,
                                          wallThicknessGuess=5.0)
     with MinimizeSpy() as spy:
@@ -137,6 +160,7 @@ def run_e2e(perm=(0, 1), sign=(1, 1), shift=(0.0, 0.0)):
     th = manager.thermodynamics
     cfg = manager.config.configEOM
     out = dict(
+        model=name, n=n,
         success=bool(res.success), vw=_f(res.wallVelocity), vwLTE=_f(res.wallVelocityLTE),
         vJ=_f(manager.hydrodynamics.vJ), Tplus=_f(res.temperaturePlus),
         Tminus=_f(res.temperatureMinus),
@@ -146,7 +170,8 @@ def run_e2e(perm=(0, 1), sign=(1, 1), shift=(0.0, 0.0)):
         thickBounds=[float(x) for x in cfg.wallThicknessBounds],
         offBounds=[float(x) for x in cfg.wallOffsetBounds], Tnucl=float(th.Tnucl),
         minimize_calls=len(spy.calls))
-    out["bounds_seen"] = sorted({(tuple(lb), tuple(ub), len(x0)) for x0, lb, ub in spy.calls})
+    out["bounds_seen"] = sorted({(tuple(float(v) for v in lb), tuple(float(v) for v in ub),
+                                  len(x0)) for x0, lb, ub in spy.calls})
     return out
 
 
@@ -180,15 +205,21 @@ def expected_from_base(base, perm, sign, shift):
     return exp
 
 
-# tolerances (calibrated on the unchanged tree, see cov["rule"]): the wall solver stops at
-# errTol = 1e-3 on the pressure; observed scatter between relabelled runs is ~4e-4 in vw,
-# ~2e-4 relative in the widths and ~3e-4 of a width in the wall separation
-TOL = dict(vw=4e-3, vwLTE=1e-5, vJ=1e-6, T=1.5e-3, width=0.03, sep=0.03, phase=1e-4)
+# Tolerances, calibrated on the unchanged tree (see cov["rule"]).  The wall solver stops at
+# errTol = 1e-3 on the pressure.  When another field is pinned (perm[0] != 0) the grid is
+# centred elsewhere and the discretisation differs: observed scatter 4.2e-4 in vw, 3e-4 rel in
+# T+-, 1.2e-4 rel in the widths, 3e-4 of a width in the wall separation.  With the same field
+# order (pure translation / reflection) only rounding and the minimiser's termination differ:
+# observed < 1e-6 in vw, 8e-5 rel in the widths.
+TOL_REPIN = dict(vw=4e-3, vwLTE=1e-5, vJ=1e-6, T=1.5e-3, width=0.03, sep=0.03, phase=1e-4)
+TOL_SAME = dict(vw=1e-4, vwLTE=1e-5, vJ=1e-6, T=5e-5, width=2e-3, sep=2e-3, phase=1e-4)
 
 
 def compare_runs(ctx, base, new, perm, sign, shift, label):
     exp = expected_from_base(base, perm, sign, shift)
-    case = dict(perm=list(perm), sign=list(sign), shift=list(shift))
+    n = len(perm)
+    TOL = TOL_SAME if list(perm) == list(range(n)) else TOL_REPIN
+    case = dict(model=base["model"], perm=list(perm), sign=list(sign), shift=list(shift))
     bad = []
     if not new["success"]:
         bad.append("solveWall did not report success")
@@ -201,29 +232,34 @@ def compare_runs(ctx, base, new, perm, sign, shift, label):
     for k in ("Tplus", "Tminus"):
         if abs(new[k] - exp[k]) > TOL["T"] * abs(exp[k]):
             bad.append("%s changed: %.8g vs base %.8g" % (k, new[k], exp[k]))
-    for j in range(len(perm)):
+    for j in range(n):
         if abs(new["widths"][j] - exp["widths"][j]) > TOL["width"] * exp["widths"][j]:
             bad.append("width of new field %d: %.6g, base field %d has %.6g" % (
                 j, new["widths"][j], perm[j], exp["widths"][j]))
     # wall positions z_j = -offset_j * width_j relative to the pinned wall
     Lmax = max(exp["widths"])
-    for j in range(1, len(perm)):
+    for j in range(1, n):
         zn = -new["offsets"][j] * new["widths"][j]
         ze = -exp["offsets"][j] * exp["widths"][j]
         if abs(zn - ze) > TOL["sep"] * Lmax:
             bad.append("offset of new field %d: %.6g, expected %.6g (wall separation %.6g vs "
                        "%.6g)" % (j, new["offsets"][j], exp["offsets"][j], zn, ze))
+    if new["offsets"][0] != 0.0:
+        bad.append("offset of the first field is %r, not 0" % new["offsets"][0])
     for k in ("phaseLow", "phaseHigh"):
-        for j in range(len(perm)):
+        for j in range(n):
             if abs(new[k][j] - exp[k][j]) > TOL["phase"] * 246.0:
                 bad.append("%s[%d] = %.8g, expected %.8g" % (k, j, new[k][j], exp[k][j]))
-    ctx.count("e2e_relabelled_run", case, bucket=label)
+    dev = dict(vw=abs((new["vw"] or 0) - (exp["vw"] or 0)),
+               width=max(abs(new["widths"][j] / exp["widths"][j] - 1) for j in range(n)),
+               T=abs(new["Tplus"] / exp["Tplus"] - 1))
+    ctx.count("e2e_relabelled_run", case, bucket="%s:%s" % (base["model"], label))
     if bad:
         fail_once(ctx, "relabelled run %s differs from the base run: %s" % (
             json.dumps(case), "; ".join(bad[:4])),
             dict(kind="e2e", case=case, base=_slim(base), new=_slim(new), differences=bad),
             key="e2e:" + label)
-    return not bad
+    return not bad, dev
 
 
 def _slim(r):
@@ -232,7 +268,7 @@ def _slim(r):
 
 def check_bounds_seen(ctx, run, case):
     """direct validation of minimizer_bounds_aligned on what scipy really received"""
-    n = 2
+    n = run["n"]
     tl, th_ = [x / run["Tnucl"] for x in run["thickBounds"]]
     ol, oh = run["offBounds"]
     ok = True
@@ -572,19 +608,28 @@ Ltac ev := cbv beta iota delta [wallProfile_ret0 wallProfile_ret1 action_ret upd
 # ------------------------------------------------------------------------------------
 
 def transformations(ctx):
-    quick = [((1, 0), (1, 1), (0.0, 0.0), "permutation"),
-             ((0, 1), (1, 1), (60.0, -45.0), "translation")]
+    """(model, perm, sign, shift, label)"""
+    quick = [("xsm2", (1, 0), (1, 1), (0.0, 0.0), "permutation"),
+             ("xsm2", (0, 1), (1, 1), (60.0, -45.0), "translation")]
     if ctx.quick:
         return quick
     out = list(quick)
-    out.append(((0, 1), (-1, 1), (0.0, 0.0), "reflection"))
-    out.append(((0, 1), (1, -1), (0.0, 0.0), "reflection"))
+    out.append(("xsm2", (0, 1), (-1, 1), (0.0, 0.0), "reflection"))
+    out.append(("xsm2", (0, 1), (1, -1), (0.0, 0.0), "reflection"))
     rng = ctx.rng
     for perm in ((0, 1), (1, 0)):
         for sign in itertools.product((1, -1), repeat=2):
             shift = (float(rng.randint(-120, 120)), float(rng.randint(-120, 120)))
-            out.append((perm, sign, shift, "general"))
-    out.append(((1, 0), (1, 1), (-30.0, 75.0), "general"))
+            out.append(("xsm2", perm, sign, shift, "general"))
+    out.append(("xsm2", (1, 0), (1, 1), (-30.0, 75.0), "general"))
+    # three fields: every non-trivial permutation once, with random signs and shifts
+    for perm in itertools.permutations(range(3)):
+        if perm == (0, 1, 2):
+            out.append(("xsm3", perm, (-1, 1, -1), (35.0, -80.0, 12.0), "general"))
+            continue
+        sign = tuple(rng.choice((1, -1)) for _ in range(3))
+        shift = tuple(float(rng.randint(-120, 120)) for _ in range(3))
+        out.append(("xsm3", perm, sign, shift, "general"))
     return out
 
 
@@ -615,27 +660,35 @@ def run(ctx):
         ctx.log("unit checks raised", traceback.format_exc())
         ctx.broken.append("harness: unit checks raised %r" % ex)
     # (4b) end-to-end metamorphic runs -----------------------------------------------------
-    base = None
+    bases = {}
     try:
-        base = run_e2e()
-        ctx.log("base run: vw=%.6f vwLTE=%.6f vJ=%.6f T-=%.4f T+=%.4f widths=%r offsets=%r" % (
-            base["vw"], base["vwLTE"], base["vJ"], base["Tminus"], base["Tplus"],
-            base["widths"], base["offsets"]))
-        ctx.sample(dict(base_run=_slim(base)))
-        check_bounds_seen(ctx, base, dict(perm=[0, 1], sign=[1, 1], shift=[0, 0]))
-        if not base["success"] or base["vw"] is None:
-            ctx.broken.append("harness: base run did not succeed")
-        rows.append(("bounds", 2, base["thickBounds"] + base["offBounds"] + [base["Tnucl"]],
-                     list(base["bounds_seen"][0][0]), list(base["bounds_seen"][0][1])))
-        for perm, sign, shift, label in transformations(ctx):
-            new = run_e2e(perm, sign, shift)
-            ok = compare_runs(ctx, base, new, perm, sign, shift, label)
-            check_bounds_seen(ctx, new, dict(perm=list(perm), sign=list(sign),
+        for name, perm, sign, shift, label in transformations(ctx):
+            if name not in bases:
+                base = bases[name] = run_e2e(name)
+                ctx.log("base run %s: vw=%.8f vwLTE=%.8f vJ=%.8f T-=%.5f T+=%.5f widths=%r "
+                        "offsets=%r" % (name, base["vw"], base["vwLTE"], base["vJ"],
+                                        base["Tminus"], base["Tplus"], base["widths"],
+                                        base["offsets"]))
+                ctx.sample(dict(base_run=_slim(base)))
+                n = base["n"]
+                check_bounds_seen(ctx, base, dict(model=name, perm=list(range(n)),
+                                                  sign=[1] * n, shift=[0] * n))
+                if not base["success"] or base["vw"] is None:
+                    ctx.broken.append("harness: base run %s did not succeed" % name)
+                if base["bounds_seen"]:
+                    rows.append(("bounds", n, base["thickBounds"] + base["offBounds"] +
+                                 [base["Tnucl"]], list(base["bounds_seen"][0][0]),
+                                 list(base["bounds_seen"][0][1])))
+            base = bases[name]
+            new = run_e2e(name, perm, sign, shift)
+            ok, dev = compare_runs(ctx, base, new, perm, sign, shift, label)
+            check_bounds_seen(ctx, new, dict(model=name, perm=list(perm), sign=list(sign),
                                              shift=list(shift)))
-            ctx.log("%s perm=%r sign=%r shift=%r: vw=%.6f widths=%r offsets=%r %s" % (
-                label, perm, sign, shift, new["vw"] or float("nan"), new["widths"],
-                new["offsets"], "ok" if ok else "DIFFERS"))
-            ctx.sample(dict(relabelled_run=dict(perm=perm, sign=sign, shift=shift,
+            ctx.log("%s %s perm=%r sign=%r shift=%r: vw=%.8f widths=%r offsets=%r dev=%s %s" % (
+                name, label, perm, sign, shift, new["vw"] or float("nan"), new["widths"],
+                new["offsets"], " ".join("%s:%.1e" % kv for kv in dev.items()),
+                "ok" if ok else "DIFFERS"))
+            ctx.sample(dict(relabelled_run=dict(model=name, perm=perm, sign=sign, shift=shift,
                                                 result=_slim(new))))
     except Exception as ex:
         import traceback
@@ -685,8 +738,9 @@ def replay(rep):
     kind = rep.get("kind")
     c = rep.get("case", {})
     if kind in ("e2e", "bounds"):
-        base = run_e2e()
-        new = run_e2e(tuple(c["perm"]), tuple(c["sign"]), tuple(c["shift"]))
+        name = c.get("model", "xsm2")
+        base = run_e2e(name)
+        new = run_e2e(name, tuple(c["perm"]), tuple(c["sign"]), tuple(c["shift"]))
         print("base:", json.dumps(_slim(base)))
         print("new :", json.dumps(_slim(new)))
         print("bounds seen:", new["bounds_seen"])
